@@ -465,6 +465,8 @@ func (l *Linter) lintErrorStatement(stmt *ast.ErrorStatement, ctx *context.Conte
 	// Fastly recommends to use error code between 600 and 699.
 	// https://developer.fastly.com/reference/vcl/statements/error/
 	switch t := stmt.Code.(type) {
+	case nil:
+		// bare "error;" has neither code nor response
 	case *ast.Ident:
 		code := l.lint(t, ctx)
 		if code != types.IntegerType {
